@@ -207,6 +207,10 @@ Theorem c03_heap_delete_abstraction : forall deg, (2 <= deg)%nat -> forall s hd 
     step_ok (hctx hd) (hfp (hp s) hd) (hp s) (hp s') (hfp (hp s') hd').
 Proof. exact h_delete_sim. Qed.
 
+(* a call that never returned (the harness found it parked on the wrapper's own lock with nobody else using the
+   wrapper) is recorded as OStuck; it equals no outcome of the model or of the sorted-map specification *)
+Theorem c03_stuck_is_no_outcome : forall o, obs_eqb OStuck o = false /\ obs_eqb o OStuck = false.
+Proof. intros o. destruct o; split; reflexivity. Qed.
 (* Clear(true|false) through a handle: the store changes only by the removal of nodes of the handle's tree that the
    handle's context owns (step_ok ... []: everything else keeps its content); the handle then stands for the empty tree *)
 Theorem c03_heap_clear : forall s hd b, good_alloc s ->
@@ -431,6 +435,7 @@ Print Assumptions c03_heap_clear.
 Print Assumptions c03_heap_reset_owned_only.
 Print Assumptions c03_heap_history_any_free_list.
 Print Assumptions c03_heap_demo_clear.
+Print Assumptions c03_stuck_is_no_outcome.
 Print Assumptions c03_case_sound.
 Print Assumptions c03_demo_history.
 Print Assumptions c03_demo_small.
